@@ -1217,3 +1217,14 @@ Proof.
   exact (fun K NO kinv Kf => SpineSuscConnected.spine_susc_connected_partition K NO kinv (F_R Kf) (Fdiv_def Kf)).
 Qed.
 Print Assumptions spine_susc_connected_partition.
+
+(** [chi_chain_part_emitted] instantiated (the four blocks = the whole space of the atom, ordering c_up, c_dn, c^+_dn, c^+_up) *)
+Theorem hubbard_atom_chi_chain_part :
+  let p := chain_part Qcanon.Qc QcD kD 4 4 hub_E hub_E hub_E hub_E hub_w hub_w hub_w hub_w (n1 _ QcD)
+            (hub_X (cann 0)) (hub_X (cann 1)) (hub_X (cdag 1)) (hub_X (cdag 0)) (0, 1, 2) 1%Z (0, 0, 0, 0)%Z in
+  ChiLehmann.lsum Qcanon.Qc QcD (spec_visits Qcanon.Qc p)
+    (fun v => emitted_value Qcanon.Qc QcD TLD chi_z1 chi_z2 (nopp _ QcD chi_z3) (visit_emissions Qcanon.Qc QcD TLD p v)) =
+  nmul _ QcD (signK Qcanon.Qc QcD 1) hub_chain_sum /\
+  hub_chain_sum = Qcanon.Q2Qc (QArith_base.Qmake (-44)%Z 459%positive) /\ hub_chain_sum <> n0 _ QcD.
+Proof. exact SpineChiExamples.hub_chain_part. Qed.
+Print Assumptions hubbard_atom_chi_chain_part.
